@@ -5,6 +5,7 @@ import Req.Client.CompressReader
 import Req.Client.CompressAttempts
 import Req.Client.CompressFormats
 import Req.Client.CompressClose
+import Req.Client.CompressZstd
 /-! Driver lanes of C14. -/
 namespace Req.Driver.L.C14
 open Req.Proto Req.Compress
@@ -176,6 +177,16 @@ def laneEnc : List String → String
     match decodeList blocks, decodeHex last with
     | some bl, some la => encodeHex (zlibWrap (stored bl la) (adler32 (bl.flatten ++ la)))
     | _, _ => "bad-op"
+  -- `c14enc zframe data <fhd> <wd> <fcs field bytes> <blocks> <last>` / `c14enc zframe skip <nibble> <payload>`
+  | ["zframe", "data", fhd, wd, fcs, blocks, last] =>
+    match fhd.toNat?, wd.toNat?, decodeHex fcs, decodeList blocks, decodeHex last with
+    | some fhd, some wd, some f, some bl, some la =>
+      encodeHex ((Req.Compress.Zstd.Frame.data (UInt8.ofNat fhd) (UInt8.ofNat wd) f bl la).bytes Req.Compress.Zstd.xxh)
+    | _, _, _, _, _ => "bad-op"
+  | ["zframe", "skip", nib, payload] =>
+    match nib.toNat?, decodeHex payload with
+    | some n, some p => encodeHex ((Req.Compress.Zstd.Frame.skippable (UInt8.ofNat n) p).bytes Req.Compress.Zstd.xxh)
+    | _, _ => "bad-op"
   | _ => "bad-op"
 
 open Req.Compress.Fmt in
@@ -189,6 +200,7 @@ def laneDec : List String → String
       let r : Option (Bytes × Term) :=
         if fmt == "gzip" then some ((gzip ieee).mean f w gInit)
         else if fmt == "deflate" then some (deflate.mean f w .hdr)
+        else if fmt == "zstd" then some (Req.Compress.Zstd.zmean Req.Compress.Zstd.xxh f w)
         else none
       match r with
       | none => "bad-op"
